@@ -22,7 +22,7 @@ EXPLANATION = (
     "float()/float literal/math.* on the factor path, exponents normalised with the container's non_int_type); "
     "registration consistency of on-the-fly prefixed units in get_name (one store, key == name == returned string == "
     "prefix + unit, converter of that prefix, reference {unit: 1} from the same candidate); in-place and functional "
-    "multiplication by the factor agree; equal units short-circuit to the identity. Does not decide the value of any "
+    "multiplication by the factor agree; equal units short-circuit to the identity. Also decided: every text entry path of the definition parser (file, string, define) uses the registry's ParserConfig(non_int_type) and parse_file/parse_string are siblings; int/float/complex of a dimensionless quantity use the magnitude converted to no units. Does not decide the value of any "
     "factor, float accuracy or path independence.")
 
 FACTOR_PATH = [(PR, "GenericPlainRegistry._get_root_units"), (PR, "GenericPlainRegistry._get_root_units_recurse"),
